@@ -24,6 +24,22 @@ static const char* STAGES[] = {"load", "project", "query", "dump", "reload", "pr
 
 static void onAlarm(int) { _exit(77); }
 
+static std::string unb64(const std::string& in)
+{
+  static const std::string A = "ABCDEFGHIJKLMNOPQRSTUVWXYZabcdefghijklmnopqrstuvwxyz0123456789+/";
+  std::string out;
+  int val = 0, bits = -8;
+  for (unsigned char c : in)
+  {
+    size_t k = A.find((char)c);
+    if (k == std::string::npos) continue;
+    val = (val << 6) + (int)k;
+    bits += 6;
+    if (bits >= 0) { out.push_back((char)((val >> bits) & 0xFF)); bits -= 8; }
+  }
+  return out;
+}
+
 static void setStage(int st, const Value& id)
 {
   SH->stage = st;
@@ -56,7 +72,8 @@ static Value runOne(const Value& rec, const std::string& tmp)
   std::string path2 = tmp + "/g_" + std::to_string(getpid()) + ".nf";
   {
     std::ofstream f(path, std::ios::binary);
-    f << rec.at("text").s();
+    if (rec.has("b64")) f << unb64(rec.at("b64").s());      // binary formats
+    else f << rec.at("text").s();
   }
   ASerializable::unsetContainerName();
   ASerializable::unsetPrefixName();
